@@ -308,6 +308,36 @@ func TestVerifC11(t *testing.T) {
 			{leaf},
 		}
 	}
+	// first tables with deferred blocks (Buffer, While, Package) and second tables that need the two-phase treatment again
+	// (forward calls, nested packages followed by siblings): the parser is reused across tables
+	ret := func(n *vfN) *vfN { return &vfN{K: "Return", C: []*vfN{n}} }
+	deferredFirsts := [][]*vfN{
+		{{K: "Name", Name: "BUF0", C: []*vfN{{K: "Buf", S: "ab"}}}},
+		{{K: "Method", Name: "MTHW", I: 1, C: []*vfN{{K: "While", C: []*vfN{{K: "Arg", I: 0}, {K: "Store", C: []*vfN{vfI(5), {K: "Local", I: 0}}}}}}}},
+		{{K: "Device", Name: "DEV0", C: []*vfN{{K: "Name", Name: "PKG0", C: []*vfN{{K: "Pkg", C: []*vfN{vfI(1), {K: "Buf", S: "xyz"}}}}}}}},
+	}
+	laterTables := [][]*vfN{
+		{{K: "Method", Name: "M000", I: 0, C: []*vfN{ret(&vfN{K: "Call", Name: "MTH2", C: []*vfN{vfI(1), vfI(2)}})}}, {K: "Method", Name: "MTH2", I: 2, C: []*vfN{ret(&vfN{K: "Arg", I: 0})}}},
+		{{K: "Device", Name: "DEVX", C: []*vfN{{K: "Device", Name: "DEV1", C: []*vfN{{K: "Name", Name: "_HID", C: []*vfN{vfI(1)}}}}, {K: "Device", Name: "DEV2", C: []*vfN{{K: "Name", Name: "_HID", C: []*vfN{vfI(2)}}}}, {K: "Name", Name: "TAIL", C: []*vfN{vfI(3)}}}}},
+		{{K: "Scope", Name: "\\_SB_", C: []*vfN{{K: "Device", Name: "DEVY", C: []*vfN{{K: "Method", Name: "MA00", I: 0, C: []*vfN{ret(&vfN{K: "Call", Name: "MB00", C: []*vfN{vfI(7)}})}}, {K: "Method", Name: "MB00", I: 1, C: []*vfN{ret(&vfN{K: "Arg", I: 0})}}}}, {K: "Name", Name: "AFT0", C: []*vfN{{K: "Buf", S: "q"}}}}}},
+		{{K: "Name", Name: "BUF9", C: []*vfN{{K: "Buf", S: "zz"}}}, {K: "Method", Name: "M009", I: 0, C: []*vfN{{K: "While", C: []*vfN{{K: "Call", Name: "M010", C: []*vfN{vfI(1)}}, {K: "Store", C: []*vfN{vfI(5), {K: "Local", I: 0}}}}}}}, {K: "Method", Name: "M010", I: 1, C: []*vfN{ret(&vfN{K: "Arg", I: 0})}}},
+	}
+	for _, f := range deferredFirsts {
+		if !mine() {
+			continue
+		}
+		for _, l := range laterTables {
+			c.check([][]*vfN{f, l}, 0)
+			for _, l2 := range laterTables {
+				if &l2[0] != &l[0] && vfProgString([][]*vfN{l}) != vfProgString([][]*vfN{l2}) {
+					c.check([][]*vfN{f, l, l2}, 0)
+				}
+			}
+		}
+		for _, k := range cn {
+			c.check([][]*vfN{f, vfCallProgs()[k]}, 0)
+		}
+	}
 	for _, f := range firsts {
 		if !mine() {
 			continue
@@ -359,7 +389,7 @@ func TestVerifC11(t *testing.T) {
 		}
 	}
 	run.Count("rejected_by_reference_as_ill_formed", c.skipped)
-	run.Finish(true, fmt.Sprintf("T1: 20 constructs x 7 name forms x 13 containers x PkgLength encodings %v; T2: 41 call/field/operator/module-level programs x 13 containers, every ordered pair of constructs x 13 containers; T3: constructs x name forms x 8x8 nested containers (thorough: all constructs; plus T2 programs in 8x8 nested containers and every ordered triple of constructs in 4 containers); T4: 5 first tables x 7 second tables (Scope into / call into / plain) x constructs; T5: every ordered pair and triple of 7 scope/relocation blocks whose resolution needs several passes (also split over two tables)", pfs),
+	run.Finish(true, fmt.Sprintf("T1: 20 constructs x 7 name forms x 13 containers x PkgLength encodings %v; T2: 41 call/field/operator/module-level programs x 13 containers, every ordered pair of constructs x 13 containers; T3: constructs x name forms x 8x8 nested containers (thorough: all constructs; plus T2 programs in 8x8 nested containers and every ordered triple of constructs in 4 containers); T4: 5 first tables x 7 second tables (Scope into / call into / plain) x constructs, and 3 first tables with deferred blocks (Buffer, While, Package) x later tables that need the two-phase treatment again (forward calls, nested packages followed by siblings, every T2 program), two and three tables on one parser; T5: every ordered pair and triple of 7 scope/relocation blocks whose resolution needs several passes (also split over two tables)", pfs),
 		"a program is distinct by its ASL rendering and non-trivial if the reference accepts it as well-formed and the parsed namespace agrees with it")
 }
 
